@@ -106,7 +106,7 @@ func gsStage2(dir string, cases []*e1Case, env []string, recs []map[string]inter
 	}
 	for round := 0; round < 12; round++ {
 		var sb strings.Builder
-		sb.WriteString("package main\n\nimport (\n\t\"encoding/json\"\n\t\"os\"\n\trt \"verifrt\"\n\tp \"example.com/v/p\"\n\text \"example.com/v/ext\"\n)\n\nvar _ ext.Pub\n\nvar entries = []rt.Entry{\n")
+		sb.WriteString("package main\n\nimport (\n\t\"encoding/json\"\n\t\"os\"\n\trt \"verifrt\"\n\tp \"example.com/v/p\"\n\text \"example.com/v/ext\"\n\t\"example.com/v/geo/v2\"\n)\n\nvar _ ext.Pub\nvar _ geo.Seg\n\nvar entries = []rt.Entry{\n")
 		line := strings.Count(sb.String(), "\n") + 1
 		for _, e := range ents {
 			text := strings.TrimRight(str(e.m, "text"), "\n")
